@@ -225,6 +225,11 @@ func (s *sharedEntryAttributes) toXmlInternal(parent *etree.Element, onlyNewOrUp
 				utils.AddXMLOperation(delElem, utils.XMLOperationDelete, operationWithNamespace, useOperationRemove)
 				overallDoAdd = true
 			}
+			// a presence container carries a value itself, independent of its childs
+			if !overallDoAdd && s.parent != nil && s.schema.GetContainer().IsPresence && !s.leafVariants.shouldDelete() && s.leafVariants.GetHighestPrecedence(onlyNewOrUpdated, false) != nil {
+				xmlAddNamespaceConditional(s, s.parent, newElem, honorNamespace)
+				overallDoAdd = true
+			}
 			// so if there is at least a child and the s.parent is not nil (root node)
 			// then add p to the parent as a child
 			if overallDoAdd && s.parent != nil {
